@@ -494,7 +494,7 @@ impl<'tcx> Cx<'tcx> {
         v
     }
 
-    fn body_json(&self, did: DefId, body: &Body<'tcx>) -> J {
+    fn body_json(&self, did: DefId, body: &Body<'tcx>, promoted: Option<u32>) -> J {
         let tcx = self.tcx;
         let mut locals = Vec::new();
         for (_l, d) in body.local_decls.iter_enumerated() {
@@ -676,8 +676,13 @@ impl<'tcx> Cx<'tcx> {
             DefKind::Closure => "closure",
             _ => "other",
         };
+        let kind = if promoted.is_some() { "promoted" } else { kind };
+        let key = match promoted {
+            Some(i) => format!("{}::{{promoted#{}}}", path_of(tcx, did), i),
+            None => path_of(tcx, did),
+        };
         let mut v: Vec<(&'static str, J)> = vec![
-            ("key", s(path_of(tcx, did))),
+            ("key", s(key)),
             ("kind", s(kind)),
             ("crate", s(tcx.crate_name(LOCAL_CRATE).to_string())),
         ];
@@ -688,7 +693,7 @@ impl<'tcx> Cx<'tcx> {
         v.push(("file", s(si.file)));
         v.push(("line_lo", J::Int(lo.line as i128)));
         v.push(("line_hi", J::Int(hi.line as i128)));
-        if matches!(dk, DefKind::Fn | DefKind::AssocFn) {
+        if promoted.is_none() && matches!(dk, DefKind::Fn | DefKind::AssocFn) {
             let vis = tcx.visibility(did);
             v.push(("pub", J::Bool(vis.is_public())));
             let sig = tcx.fn_sig(did).instantiate_identity().skip_norm_wip();
@@ -706,7 +711,7 @@ impl<'tcx> Cx<'tcx> {
                 }
             }
         }
-        if matches!(dk, DefKind::Closure) {
+        if promoted.is_none() && matches!(dk, DefKind::Closure) {
             let parent = tcx.typeck_root_def_id(did);
             v.push(("root", s(path_of(tcx, parent))));
             v.push(("parent", s(path_of(tcx, tcx.parent(did)))));
@@ -756,8 +761,13 @@ impl rustc_driver::Callbacks for Cb {
             }
             let body = tcx.optimized_mir(did);
             let cx = Cx { tcx, env: TypingEnv::post_analysis(tcx, did) };
-            functions.push(cx.body_json(did, body));
+            functions.push(cx.body_json(did, body, None));
             nfn += 1;
+            // promoted constants of this body (e.g. `&(a..=b)`, `&[0]`) as tiny bodies of their own
+            let proms = tcx.promoted_mir(did);
+            for (pi, pb) in proms.iter_enumerated() {
+                functions.push(cx.body_json(did, pb, Some(pi.as_u32())));
+            }
         }
         // ADTs, consts, statics, impls
         let mut adts = Vec::new();
